@@ -2,6 +2,8 @@ import Dashu.Proofs.Text.Grammar
 import Dashu.Proofs.Text.BytesDecode
 import Dashu.Proofs.Text.CapacityParse
 import Dashu.Proofs.Text.ChunksWord
+import Dashu.Proofs.Text.GrammarExtra
+import Dashu.Proofs.Text.FmtWord
 /-
   C07 — Integer text and byte encodings round-trip and match the reference digits.
 
@@ -132,6 +134,22 @@ theorem print_parse_round_trip_unsigned (W : Nat) (hW : 36 < 2 ^ W) (r n : Nat) 
     parseRadix W false (fmtModel W (.inRadix r) { alt := up, plus := plus } (n : Int)) r = .ok (n : Int) :=
   model_round_trip_unsigned W hW r n up plus hv
 
+/-- **radix prefix round trip**: `{:#b}`, `{:#o}`, `{:#x}`, `{:#X}` (optionally with `+`; a negative
+    number prints `-` before the prefix) parse back through `from_str_with_radix_prefix` to the same
+    integer together with the radix the prefix names -/
+theorem print_prefix_parse_round_trip (W : Nat) (hW : 36 < 2 ^ W) (z : Int) (plus : Bool) :
+    parseDefault W true (fmtModel W .binary { alt := true, plus := plus } z) 10 = .ok (z, 2) ∧
+    parseDefault W true (fmtModel W .octal { alt := true, plus := plus } z) 10 = .ok (z, 8) ∧
+    parseDefault W true (fmtModel W .lowerHex { alt := true, plus := plus } z) 10 = .ok (z, 16) ∧
+    parseDefault W true (fmtModel W .upperHex { alt := true, plus := plus } z) 10 = .ok (z, 16) :=
+  prefix_round_trip W hW z plus
+
+/-- **underscores are ignored**: two digit strings that differ only by `_` separators parse alike
+    (same number or same error) -/
+theorem parse_underscores_ignored (r : Nat) (t t' : List Nat)
+    (h : t'.filter (· ≠ 95) = t.filter (· ≠ 95)) : parseBodySpec r t' = parseBodySpec r t :=
+  parseBodySpec_underscores r t t' h
+
 -- ======================================================================= fixed-size buffers
 
 /-- **soundness of the length shortcut of `PreparedLarge::new`**: the squaring loop may stop as soon
@@ -165,6 +183,44 @@ theorem digit_writer_sound (W : Nat) (hW : 8 ≤ W) (c : DigitCase) (pieces : Li
 theorem parser_buffers_never_overrun (W r : Nat) (hr : 2 ≤ r) (hrW : r < 2 ^ W) (src : List Nat) :
     parseCoreC W r src = .ok (if isPow2 r then parsePow2 W r src else parseNonPow2 W r src) :=
   parseCoreC_eq W r hr hrW src
+
+/-- **the single-word divisions of the printers, on words**: `PreparedMedium::new` run on the word
+    buffer — `fast_div_by_word_in_place` (normalising `shl_in_place`, `div_rem_2by1` by the normalised
+    `range_per_word` per word, remainder un-shift: builder-div's model with its contract
+    `fastDivByWordInPlace_spec`, C02) and the trimming of zero words — prints exactly what the
+    number-level model (`/`, `%`) prints, for every normalised word buffer -/
+theorem medium_on_words (W r : Nat) (hW : 1 ≤ W) (hr : 2 ≤ r) (hrW : r < 2 ^ W) (ws : List Nat)
+    (hw : Dashu.Model.IsWords W ws) (hn : Norm ws) :
+    preparedMediumW W r ws = .ok (preparedMedium W r (Dashu.Model.val W ws)) :=
+  preparedMediumW_eq W r hW hr hrW ws hw hn
+
+/-- `write_chunk` on the word buffer: `CHUNK_LEN` divisions, `assert_eq!(buffer_len, 0)` holds for
+    every chunk below `range_per_word^CHUNK_LEN`, digits as in the number-level model -/
+theorem write_chunk_on_words (W r : Nat) (hr : 2 ≤ r) (hrW : r < 2 ^ W) (ws : List Nat)
+    (hw : Dashu.Model.IsWords W ws) (hfit : Dashu.Model.val W ws < (radixInfo W r).rpw ^ fmtChunkLen) :
+    writeChunkW W r ws = .ok (writeChunk W r (Dashu.Model.val W ws)) :=
+  writeChunkW_eq W r hr hrW ws hw hfit
+
+/-- `PreparedDword::new` on words: `shl_dword` by the normalising shift, three `div_rem_2by1` by the
+    normalised `range_per_word` (contract `div2by1`, discharged against num-modular's algorithm in
+    C02 `nm_contracts_discharged`), `double_word(q0, q1) << shift` without overflow, shifts back —
+    the three parts are `% rpw`, `/ rpw % rpw`, `/ rpw / rpw` and no precondition fails, for every
+    double word, every radix and every even word size -/
+theorem dword_split_on_words (W r dword : Nat) (hW : 1 ≤ W) (hev : 2 ∣ W) (hr : 2 ≤ r) (hrW : r < 2 ^ W)
+    (hd : dword < 2 ^ (2 * W)) :
+    dwordSplitW W (radixInfo W r).rpw dword =
+      .ok (dword % (radixInfo W r).rpw, (dword / (radixInfo W r).rpw) % (radixInfo W r).rpw,
+        dword / (radixInfo W r).rpw / (radixInfo W r).rpw) ∧
+    preparedDwordW W r dword = .ok (preparedDword W r dword) := by
+  refine ⟨?_, preparedDwordW_eq W r dword hW hev hr hrW hd⟩
+  have ok := radixInfo_ok W r hr hrW
+  have hmax := (maxExpInWord_spec W r hr hrW).2.2.2 hev
+  have hrle : r ≤ (radixInfo W r).rpw := by
+    rw [ok.pow]
+    calc r = r ^ 1 := (pow_one r).symm
+      _ ≤ r ^ (radixInfo W r).dpw := Nat.pow_le_pow_right (by omega) ok.dpos
+  exact dwordSplitW_eq W _ dword hW (by have := ok.rpw_ge; omega) ok.lt
+    (le_trans hmax (Nat.mul_le_mul_left _ hrle)) hd
 
 -- ======================================================================= bytes and chunks
 
@@ -249,5 +305,39 @@ example : ofSignedLeBytesSpec (signedLeBytesSpec (-(2 ^ 128))) = -(2 ^ 128) :=
 example : fromSignedLeBytes 64 (ibigToLeBytes 64 (-(2 ^ 128))) = -(2 ^ 128) :=
   (ibig_bytes_model 64 (by decide) (by decide) _ [] (by simp)).2.2.1
 example : (8 : Nat) ∣ 16 ∧ (8 : Nat) ∣ 32 ∧ (8 : Nat) ∣ 64 := by decide
+
+-- every theorem with hypotheses, instantiated on a concrete non-trivial value
+example := positional_representation 36 (36 ^ 40 + 35) (by decide)
+example := radix_table 64 10 (by decide) (by decide)
+example := radix_table 32 36 (by decide) (by decide)
+example := print_size_classes 64 10 (10 ^ 40 + 1) (by decide) (by decide)
+example := big_chunk_padded 64 10 (by decide) (by decide) [] 12345 trivial
+example : IsTower 10 (fmtChunkLen * (radixInfo 64 10).dpw) [10 ^ (fmtChunkLen * (radixInfo 64 10).dpw * 2 ^ 0)] :=
+  ⟨rfl, trivial⟩
+example := print_pow2_digits 64 32 (2 ^ 200 + 5) (by decide) (by decide) (by decide)
+example := layout_eq_pad_integral { width := some 12, zero := true, plus := true, alt := true } true [48, 120] [49, 102]
+example := print_eq_reference 64 (.inRadix 7) { width := some 30, align := some .center, fill := [42] } (-(7 ^ 50)) (by decide) (by decide)
+example := parse_radix_eq_grammar 64 (by decide) true [45, 49, 95, 50, 122] 36
+example := parse_default_eq_grammar 64 (by decide) true [45, 48, 120, 102, 102] 10
+example := parse_ok_sound 64 (by decide) true _ 36 _ (print_parse_round_trip 64 (by decide) 36 (-(36 ^ 30)) true false (by decide))
+example := parse_no_digits 64 true [45, 95, 95] 10 (by decide) (by decide)
+example := print_parse_round_trip_unsigned 64 (by decide) 3 (3 ^ 700) false true (by decide)
+example := printer_buffers_never_overrun 64 (by decide) (by decide) 10 (by decide) (by decide) (10 ^ 2000)
+example := digit_writer_sound 64 (by decide) .lower [[1, 2, 3], [], [10, 35]]
+example := parser_buffers_never_overrun 64 10 (by decide) (by decide) [49, 50, 95, 51]
+example : (2 ^ 192 : Nat) < 2 ^ 128 * 2 ^ 128 :=
+  tower_length_shortcut_sound 64 (by decide) (2 ^ 128) (2 ^ 192) (by decide) (by decide)
+example := le_bytes_round_trip (2 ^ 128)
+example := ubig_bytes_model 64 (by decide) (by decide) (2 ^ 130 + 7) [1, 2, 3, 0, 255]
+example := chunks_round_trip (2 ^ 200 + 12345) 37 (by decide)
+example := chunks_model 64 (2 ^ 200 + 12345) 37 (by decide) (by decide) [[1, 2], [3]] (by
+  intro c hc; simp at hc; rcases hc with rfl | rfl <;> (intro x hx; simp at hx; omega))
+example := chunks_zero_panics 64 5 [1, 2]
+example := (print_prefix_parse_round_trip 64 (by decide) (-(2 ^ 100)) false).2.2.1
+example := parse_underscores_ignored 10 [49, 50, 51] [49, 95, 50, 95, 95, 51] (by decide)
+
+example := medium_on_words 64 10 (by decide) (by decide) (by decide) [5, 7, 9] (by decide) (by unfold Norm; simp)
+example := write_chunk_on_words 64 10 (by decide) (by decide) [5, 7, 9] (by decide) (by decide)
+example := dword_split_on_words 64 10 (2 ^ 127 + 12345) (by decide) (by decide) (by decide) (by decide) (by decide)
 
 end Dashu.Props.C07
